@@ -80,6 +80,16 @@ CLAIMED = {
         "Trusted: bytecode denotation, z3, the PyVC executor, ideal keccak (A4). Immutables (code layout) are covered under C13, not here.",
         "DESIGN.md 3/C10",
     ),
+    "C13": (
+        "proof",
+        "contract-based deductive verification, template route: init code (constructor arguments as a symbolic code tail) denoted for all arguments/values and proved equal to `bytecode_runtime ++ immutables` as assigned by the reference semantics of __init__; run-time reads of immutables via the reference semantics; blueprint preamble executed concretely",
+        "Per constructor template (no arguments, word/bool/address/static-array arguments, payable, conditional values, early return, internal calls after an immutable was assigned, storage-only, no constructor) x pipeline x level x target, "
+        "for ALL argument bytes (any length), call values and prior state: deployment succeeds iff the reference semantics of __init__ succeeds (no value unless payable, canonical arguments, no revert) and then installs exactly bytecode_runtime followed by "
+        "the immutables the constructor assigned, with its storage effects; the deployed run-time code reads those immutables back. blueprint_bytecode deploys exactly 0xFE7100 ++ bytecode. "
+        "Known finding F11 (constructor-less contracts accept value); F12 (Venom `return` in __init__ deployed empty code) repaired.",
+        "Trusted: vverif/spec_source.py, bytecode denotation, z3. Dynamic constructor arguments and create_from_blueprint equivalence are not covered.",
+        "DESIGN.md 3/C13",
+    ),
     "C07": (
         "proof",
         "contract-based deductive verification, template route: the real compiler's run-time bytecode for each contract shape and configuration is denoted for all calldata/values and the dispatch contract is discharged by z3; jump-table kernels by bounded run-time contract evaluation",
